@@ -261,6 +261,29 @@ func genDef(r *hx.Rand, valid bool) (*ss.EventTriggerDefinition, [][]byte) {
 		}
 		d.LogPredicates = append(d.LogPredicates, p)
 	}
+	if valid && n >= 1 && r.Chance(15) {
+		// a second predicate on the same value with the same operator whose argument differs from the first one's
+		// only above the low 32 bytes (integers: by 2^256; dynamic bytes: a leading byte more, or the first byte of
+		// an argument longer than a word changed): both must hold, and they rarely do
+		p := d.LogPredicates[r.Intn(n)]
+		q := ss.LogPredicate{LogValueRef: p.LogValueRef, ValuePredicate: ss.ValuePredicate{Op: p.ValuePredicate.Op, IntArgs: []*big.Int{}, ByteArgs: [][]byte{}}}
+		switch {
+		case len(p.ValuePredicate.IntArgs) == 1:
+			q.ValuePredicate.IntArgs = []*big.Int{new(big.Int).Add(p.ValuePredicate.IntArgs[0], two256)}
+			d.LogPredicates = append(d.LogPredicates, q)
+		case len(p.ValuePredicate.ByteArgs) == 1 && p.LogValueRef.Dynamic:
+			a := p.ValuePredicate.ByteArgs[0]
+			var b []byte
+			if len(a) > 32 && r.Bool() {
+				b = append([]byte{}, a...)
+				b[0] ^= 0x80
+			} else {
+				b = append([]byte{0}, a...)
+			}
+			q.ValuePredicate.ByteArgs = [][]byte{b}
+			d.LogPredicates = append(d.LogPredicates, q)
+		}
+	}
 	if !valid && n >= 2 && r.Chance(30) { // duplicate topic BytesEq
 		p := ss.LogPredicate{LogValueRef: ss.LogValueRef{Offset: uint64(r.Intn(4))}, ValuePredicate: ss.ValuePredicate{Op: ss.BytesEq, IntArgs: []*big.Int{}, ByteArgs: [][]byte{word(r, pool)}}}
 		d.LogPredicates[0], d.LogPredicates[1] = p, p
@@ -316,9 +339,18 @@ func genLog(r *hx.Rand, d *ss.EventTriggerDefinition, pool [][]byte) *types.Log 
 		data = append(data, word(r, pool)...)
 	}
 	// place static values and dynamic (offset, length, payload) triples
-	for _, p := range d.LogPredicates {
+	for pi, p := range d.LogPredicates {
 		ref := p.LogValueRef
 		if ref.Offset < 4 || ref.Offset > 12 {
+			continue
+		}
+		sibling := false
+		for _, e := range d.LogPredicates[:pi] {
+			if e.LogValueRef == ref && e.ValuePredicate.Op == p.ValuePredicate.Op {
+				sibling = true // the value placed for the first predicate on this reference stays
+			}
+		}
+		if sibling {
 			continue
 		}
 		at := int(ref.Offset-4) * 32
